@@ -620,13 +620,14 @@ fn run_ops_list(ctx: &Ctx, om: OpMon, seed_fen: &str, ops: &[String], print: boo
     w.check_node(&g);
     for op in ops {
         w.ops.push(op.clone());
+        // the stored case of a violation raised by this operation must contain the operation itself
+        w.trace.push(op.clone());
         match op.as_str() {
             "undo" | "undo-null" => {
                 let r = if op == "undo" { catch(|| g.undo_move()) } else { catch(|| g.undo_null_move()) };
                 if let Err(e) = r {
                     // the subject panicked on a take-back the script is entitled to: a violation; the game object is
                     // in an undefined state afterwards, so the script ends here
-                    w.trace.push(op.clone());
                     w.vio(if op == "undo" { "undo-move-panic" } else { "undo-null-panic" }, e);
                     break;
                 }
@@ -641,7 +642,6 @@ fn run_ops_list(ctx: &Ctx, om: OpMon, seed_fen: &str, ops: &[String], print: boo
                 snaps.push(mo::snapshot(&g));
                 let r = w.refs.last().unwrap().clone();
                 if let Err(e) = catch(|| g.make_null_move()) {
-                    w.trace.push(op.clone());
                     w.vio("null-move-panic", e);
                     break;
                 }
@@ -653,7 +653,6 @@ fn run_ops_list(ctx: &Ctx, om: OpMon, seed_fen: &str, ops: &[String], print: boo
                 let rm = r.legal_moves().into_iter().find(|x| x.uci() == m).ok_or(format!("{m} not legal in reference"))?;
                 let em = g.moves().iter().copied().find(|x| format!("{x:?}") == m).ok_or(format!("{m} not generated"))?;
                 if let Err(e) = catch(|| g.make_move(em)) {
-                    w.trace.push(op.clone());
                     w.vio("make-move-panic", e);
                     break;
                 }
@@ -661,7 +660,6 @@ fn run_ops_list(ctx: &Ctx, om: OpMon, seed_fen: &str, ops: &[String], print: boo
                 w.push_ref(r.apply(&rm), rm.capture || kind == crate::refchess::Kind::P);
             }
         }
-        w.trace.push(op.clone());
         w.check_node(&g);
         if matches!(op.as_str(), "undo" | "undo-null") {
             w.ops.pop();
